@@ -1,4 +1,5 @@
 import Lean.Data.Json
+import Ledger.Sql.Str
 
 /-!
 # LeanPG values
@@ -98,7 +99,7 @@ def hexDigit (n : Nat) : Char :=
 /-- PostgreSQL's `escape_json`: `"` `\` and control characters escaped; everything
     else verbatim. -/
 def jsonEscape (s : String) : String :=
-  s.foldl (fun acc c =>
+  s.toList.foldl (fun acc c =>
     if c == '"' then acc ++ "\\\""
     else if c == '\\' then acc ++ "\\\\"
     else if c == '\n' then acc ++ "\\n"
@@ -282,7 +283,7 @@ def takeDigits : List Char → List Char × List Char
     PostgreSQL will silently ignore any time zone indication"). Fractions beyond
     microseconds are rounded half-up. -/
 def tsParse (s : String) : Except String Int := do
-  let cs := s.trimAscii.toString.toList
+  let cs := trimChars s.toList
   let bad : Except String Int := .error s!"invalid input syntax for type timestamp: \"{s}\""
   let (yD, r) := takeDigits cs
   if yD.isEmpty then bad else
@@ -404,7 +405,7 @@ def encodeBase64 (b : ByteArray) : String :=
 /-! ## text forms of values -/
 
 def needsQuoteInComposite (s : String) : Bool :=
-  s.isEmpty || s.any (fun c => c == ',' || c == '(' || c == ')' || c == '"' || c == '\\' || c.isWhitespace)
+  s.isEmpty || strAny s (fun c => c == ',' || c == '(' || c == ')' || c == '"' || c == '\\' || c.isWhitespace)
 
 mutual
 /-- the value as `::text` / output function would print it -/
@@ -429,7 +430,7 @@ def Value.compositeFields : List Value → Bool → String
       | v =>
         let t := v.toText
         if needsQuoteInComposite t then
-          "\"" ++ (t.replace "\\" "\\\\").replace "\"" "\"\"" ++ "\""
+          "\"" ++ replaceStr (replaceStr t "\\" "\\\\") "\"" "\"\"" ++ "\""
         else t
     (if first then "" else ",") ++ s ++ Value.compositeFields vs false
 def Value.arrayElems : List Value → Bool → String
@@ -441,8 +442,8 @@ def Value.arrayElems : List Value → Bool → String
       | .bool false => "f"
       | v =>
         let t := v.toText
-        if t.isEmpty || t.any (fun c => c == ',' || c == '{' || c == '}' || c == '"' || c == '\\' || c.isWhitespace) || t == "NULL" then
-          "\"" ++ (t.replace "\\" "\\\\").replace "\"" "\\\"" ++ "\""
+        if t.isEmpty || strAny t (fun c => c == ',' || c == '{' || c == '}' || c == '"' || c == '\\' || c.isWhitespace) || t == "NULL" then
+          "\"" ++ replaceStr (replaceStr t "\\" "\\\\") "\"" "\\\"" ++ "\""
         else t
     (if first then "" else ",") ++ s ++ Value.arrayElems vs false
 end
